@@ -211,18 +211,40 @@ def stress(ctx, nthreads, per, readings):
     return out
 
 
-def explore_interleavings(ctx):
+class ChildOS(object):
+    """stands for the `os` module as seen in a forked child: same as os, but another pid than at construction time"""
+    def __init__(self, real):
+        self._real = real
+        self.shift = 0
+
+    def getpid(self):
+        return self._real.getpid() + self.shift
+
+    def __getattr__(self, name):
+        return getattr(self._real, name)
+
+
+def explore_interleavings(ctx, child=False):
     """Directed search (not a proof): two real threads on the real generator, switched at source-line granularity
-    under every schedule with at most two preemptions, with per-thread clock readings; then a third, later call."""
+    under every schedule with at most two preemptions, with per-thread clock readings; then a third, later call.
+    child=True: the generator was created in a parent process and the two calls are the first ones in a forked child
+    (only meaningful when the module looks at the process id at all)."""
     from vf import detsched
     import cassandra.timestamps as T
     old = T.time
+    old_os = getattr(T, 'os', None)
+    if child and old_os is None:
+        return
     n = 0
     try:
         for (ra, rb) in ((1, 1), (1, 2), (2, 1), (3, 1), (1, 3)):
-            for sched in detsched.schedules_two_threads(9, 2):
+            for sched in detsched.schedules_two_threads(14 if child else 9, 2):
+                if child:
+                    T.os = ChildOS(old_os)
                 g = T.MonotonicTimestampGenerator(warn_on_drift=False)
                 g.last = 0
+                if child:
+                    T.os.shift = 1
                 ft = FakeTime([], per_thread={'A': [ra * 10**6], 'B': [rb * 10**6], 'C': [1]})
                 T.time = ft
 
@@ -249,14 +271,16 @@ def explore_interleavings(ctx):
                     bad = 'a later call returned %d, not above the earlier %d/%d' % (third, a, b)
                 if bad:
                     ctx.violation('interleaving.' + bad.split(' ')[0] + '.' + bad.split(' ')[1], 'threads A (reads %ds) and B (reads %ds), schedule %r: %s' % (ra, rb, sched, bad),
-                                  case={'threads': 'detsched', 'ra': ra, 'rb': rb, 'schedule': sched}, kind='interleaving',
+                                  case={'threads': 'detsched', 'ra': ra, 'rb': rb, 'schedule': sched, 'child': child}, kind='interleaving',
                                   expected='distinct, not behind the own reading, later call larger', actual={'A': a, 'B': b, 'third': third},
                                   theorem='C31_strict/C31_not_behind')
                     return
     finally:
         T.time = old
+        if old_os is not None:
+            T.os = old_os
         threading.current_thread().name = 'MainThread'
-    ctx.count('threaded_calls', 'detsched_schedules', n)
+    ctx.count('threaded_calls', 'detsched_schedules' + ('_child' if child else ''), n)
 
 
 def run(ctx):
@@ -355,6 +379,7 @@ def run(ctx):
                 break
             prev = r
     explore_interleavings(ctx)
+    explore_interleavings(ctx, child=True)
     # same-thread re-entry from a logging handler during the skew warning
     try:
         prob = reentrant_logging_probe()
@@ -394,9 +419,14 @@ def replay(ctx, rp):
         from vf import detsched
         import cassandra.timestamps as T
         old = T.time
+        old_os = getattr(T, 'os', None)
         try:
+            if case.get('child') and old_os is not None:
+                T.os = ChildOS(old_os)
             g = T.MonotonicTimestampGenerator(warn_on_drift=False)
             g.last = 0
+            if case.get('child') and old_os is not None:
+                T.os.shift = 1
             T.time = FakeTime([], per_thread={'A': [case['ra'] * 10**6], 'B': [case['rb'] * 10**6]})
 
             def body(name):
@@ -407,6 +437,8 @@ def replay(ctx, rp):
             r = detsched.Run([body('A'), body('B')], ['cassandra/timestamps.py'], case['schedule']).run()
         finally:
             T.time = old
+            if old_os is not None:
+                T.os = old_os
         a, b = r.results
         print('detsched replay: A=%r B=%r (readings %ds / %ds)' % (a, b, case['ra'], case['rb']))
         bad = a is None or b is None or a == b or a < case['ra'] * 10**6 or b < case['rb'] * 10**6
